@@ -80,11 +80,31 @@ func (c *Ctx) ownRun() map[string]*simpleVerdict {
 		{"nil []*Variant", mIface{t: types.NewSlice(vt), v: mSlice{nil}}, "Array", "AsArray", "[]"},
 		{"empty []*Variant", mIface{t: types.NewSlice(vt), v: mSlice{[]mv{}}}, "Array", "AsArray", "[]"},
 	}
+	// boundary values of every host number type: the matching type is decided by the Go type of the value, never
+	// by its magnitude, and the value comes back as it was given (the first value beyond another type's range included)
+	var bounds []hostCase
+	bound := func(goType string, k types.BasicKind, tag, access string, vals ...mv) {
+		for _, v := range vals {
+			bounds = append(bounds, hostCase{goType + " " + mRender(v), basic(k, v), tag, access, mRender(v)})
+		}
+	}
+	bound("int", types.Int, "Integer", "AsInteger", int64(0), int64(math.MaxInt32), int64(math.MaxInt32)+1, int64(math.MinInt32), int64(math.MinInt32)-1,
+		int64(1)<<53+1, int64(math.MaxInt64), int64(math.MinInt64))
+	bound("int32", types.Int32, "Integer", "AsInteger", int64(math.MaxInt32), int64(math.MinInt32))
+	bound("uint", types.Uint, "Long", "AsLong", int64(0), int64(math.MaxUint32), int64(math.MaxUint32)+1, int64(math.MaxInt64))
+	bound("uint32", types.Uint32, "Long", "AsLong", int64(0), int64(math.MaxInt32)+1, int64(math.MaxUint32))
+	bound("int64", types.Int64, "Long", "AsLong", int64(0), int64(-1), int64(math.MaxInt32), int64(math.MinInt32), int64(math.MaxInt64), int64(math.MinInt64))
+	bound("float32", types.Float32, "Float", "AsFloat", float64(0), float64(math.MaxFloat32), float64(-math.MaxFloat32), float64(math.SmallestNonzeroFloat32), float64(16777216))
+	bound("float64", types.Float64, "Double", "AsDouble", float64(0), math.MaxFloat64, -math.MaxFloat64, math.SmallestNonzeroFloat64, float64(int64(1)<<53), float64(3))
+	for _, d := range []int64{0, -1, math.MaxInt64, math.MinInt64} {
+		bounds = append(bounds, hostCase{fmt.Sprintf("time.Duration %d", d), mIface{t: durT, v: d}, "TimeSpan", "AsTimeSpan", fmt.Sprint(d)})
+	}
+	single := append(append([]hostCase{}, cases...), bounds...)
 	fromObject := c.MustFunc(pkgVariants, "", "VariantFromObject")
-	for ci, hc := range append(append([]hostCase{}, cases...), cases...) {
+	for ci, hc := range append(append([]hostCase{}, single...), single...) {
 		m.steps = 0
 		ctor := newVariant
-		if ci >= len(cases) {
+		if ci >= len(single) {
 			ctor = fromObject
 		}
 		v, out := m.Call(ctor, hc.val)
@@ -115,8 +135,12 @@ func (c *Ctx) ownRun() map[string]*simpleVerdict {
 	}
 	// two-step histories: a variant that already holds one host value is set to another; it then reports the
 	// second value's type and payload only (nothing of the first survives, nil included)
-	for _, h1 := range cases {
-		for _, h2 := range cases {
+	for i1, h1 := range cases {
+		seconds := cases
+		if i1 == 0 || h1.tag == "Null" || h1.tag == "String" && i1%2 == 0 {
+			seconds = single // boundary values stored in a variant that held an int, nothing, a string
+		}
+		for _, h2 := range seconds {
 			m.steps = 0
 			v, out := m.Call(newVariant, h1.val)
 			if out.kind != "ok" {
